@@ -39,6 +39,10 @@ def cases(draw):
     if via_dollar and isinstance(s, dict):
         s = dict(s)
         s["$schema"] = draw(st.sampled_from([SCHEMA_URIS[d], SCHEMA_URIS[d][:-1]]))
+    elif isinstance(s, dict) and draw(st.integers(0, 3)) == 0:
+        # the class is given explicitly; whatever the schema says about itself must not matter
+        s = dict(s)
+        s["$schema"] = draw(st.sampled_from(sorted(SCHEMA_URIS.values()) + ["http://example.com/unknown-meta#"]))
     fc = draw(st.sampled_from(["none", "none", "default", "draft"]))
     if fc != "none" and isinstance(s, dict) and draw(st.booleans()):
         s = dict(s)
@@ -187,6 +191,8 @@ class C04(Prop):
         if bad_regex(s):
             res.labels.append("uncompilable-regex")     # entry points must still agree wherever it is not applied
         explicit = not (case.get("via_dollar") and isinstance(s, dict) and "$schema" in s)
+        if explicit and isinstance(s, dict) and "$schema" in s:
+            res.labels.append("explicit-class-with-foreign-$schema")
         if not explicit:
             sel = impl.validators.validator_for(s)
             if sel is not cls:
